@@ -13,7 +13,7 @@ import itertools
 import numpy as np
 import scipy.integrate
 
-from ..core import Interp, Hooks, make_array, dirty_fill
+from ..core import Interp, Hooks, make_array, dirty_fill, well_posed
 from ..models import dense
 from .base import Scenario
 from .purity import effective_optics
@@ -187,6 +187,12 @@ def check_fit(L, p, q):
     segs = [mask] if mask.ndim == 2 else list(mask)
     if mask.ndim < 2 or np.asarray(p.opd).ndim != 2:
         out['premise'] = False
+        return out
+    if not all(well_posed(s_ > 0) for s_ in segs) or (len(segs) > 1 and np.max(np.sum(np.asarray(segs) > 0, axis=0)) > 1):
+        # premise from the live plane (its masks may come out of lentil's own rescale): every segment has >= 3 non-collinear pixels
+        # and segments do not overlap -- otherwise the least-squares tilt of a segment is not unique and any answer is right
+        out['premise'] = False
+        out['ill_posed'] = True
         return out
     if len(q.tilt) < len(p.tilt) + len(segs):
         out['premise'] = False
